@@ -8,7 +8,8 @@ Line protocol for C04 (see harness/c04/main.go):
         the line may end in `cfg norouting` or `cfg nodedown`)
        [late <bridge <mid> | route <mid> | remote <mid>>]      (only with ts none: what appears while the request polls)
   obs: ack <none|ok|fail> acks <n> att <none|src|tgt|fwd> on <mapping of the bridge holding the requester|-> … att <none|src|tgt|fwd> data <0|1> ret <switch|err|pending>
-The clock is 1000; exp 1 = expired at 500, exp 2 = expires at 2000.  This node is node-A, the other node-B.
+The clock is 1000; exp 1 = expired at 500, exp 2 = expires at 2000, e-k / e+k = ExpiresAt k seconds before / after
+the moment the request is sent (k < 1000).  This node is node-A, the other node-B.
 `ret` is compared between model and implementation but is not part of the property.
   rmw <usage|usage-read1|usage-read2|stats|stats-read1|status|status-read1>   obs: revoked <0|1> ack <..> att <..> data <0|1>
     a whole-record update of mapping M is between its read and its write (gated store) when the target client revokes M;
@@ -28,7 +29,10 @@ def parseMaps : Nat → List String → Option (List PortMapping × List String)
     let l ← l.toNat?
     let t ← t.toNat?
     let status ← (if st == "a" then some "active" else if st == "i" then some "inactive" else none)
-    let exp ← (if ex == "0" then some none else if ex == "1" then some (some 500) else if ex == "2" then some (some 2000) else none)
+    let exp ← (if ex == "0" then some none else if ex == "1" then some (some 500) else if ex == "2" then some (some 2000)
+               else if ex.startsWith "e-" then (ex.drop 2).toNat?.map (fun k => some (1000 - k))
+               else if ex.startsWith "e+" then (ex.drop 2).toNat?.map (fun k => some (1000 + k))
+               else none)
     let (r, ts') ← parseMaps n ts
     pure (⟨i, l, t, undash s, status, rv == "1", exp⟩ :: r, ts')
   | _, _ => none
